@@ -347,4 +347,55 @@ theorem foldl_swap_perm (a b : Nat → Nat) : ∀ (is : List Nat) (arr : List Na
       intro j; rw [swapList_length]; exact h j
     exact (foldl_swap_perm a b rest _ h').trans (swapList_perm arr _ _ (h i).1 (h i).2)
 
+/-! ### atomic read-modify-write = load and store with nothing in between -/
+
+/-- every count update as an uninterrupted load/store pair of its thread -/
+def atomicOps : List (Nat × CountEv) → List (Nat × RcOp)
+  | [] => []
+  | (t, .clone) :: r => (t, .ld) :: (t, .stInc) :: atomicOps r
+  | (t, .drop) :: r => (t, .ld) :: (t, .stDec) :: atomicOps r
+
+theorem tmpOf_push (c l : Nat) (tm : List (Nat × Nat)) (fr : Nat) (fw : Bool) (t v : Nat) :
+    (RcSt.mk c l ((t, v) :: tm) fr fw).tmpOf t = v := by
+  simp [RcSt.tmpOf, List.find?]
+
+/-- When no step of another thread falls between a thread's load and its store
+(what an atomic read-modify-write guarantees), the load/store machine IS the
+atomic machine: the count equals the number of live handles throughout, and the
+payload is never freed while a handle lives. -/
+theorem rc_atomic_pairs_exact : ∀ (evs : List (Nat × CountEv)) (s : RcSt) (n' fr' : Nat),
+    s.count = s.live → s.freedWhileLive = false →
+    countRun (s.count, s.frees) (evs.map (·.2)) = some (n', fr') →
+    (rcRun s (atomicOps evs)).count = n' ∧ (rcRun s (atomicOps evs)).live = n'
+      ∧ (rcRun s (atomicOps evs)).frees = fr' ∧ (rcRun s (atomicOps evs)).freedWhileLive = false
+  | [], s, n', fr', hcl, hf, h => by
+    simp only [List.map_nil, countRun, Option.some.injEq, Prod.mk.injEq] at h
+    obtain ⟨rfl, rfl⟩ := h
+    simp [atomicOps, rcRun, hcl.symm, hf]
+  | (t, .clone) :: rest, s, n', fr', hcl, hf, h => by
+    cases hc : s.count with
+    | zero => rw [hc] at h; simp [countRun] at h
+    | succ n =>
+      rw [hc] at h
+      simp only [List.map_cons, countRun] at h
+      simp only [atomicOps, rcRun, rcStep]
+      apply rc_atomic_pairs_exact rest _ n' fr'
+      · simp only [tmpOf_push]; omega
+      · exact hf
+      · simp only [tmpOf_push, hc]; exact h
+  | (t, .drop) :: rest, s, n', fr', hcl, hf, h => by
+    cases hc : s.count with
+    | zero => rw [hc] at h; simp [countRun] at h
+    | succ n =>
+      rw [hc] at h
+      simp only [List.map_cons, countRun] at h
+      simp only [atomicOps, rcRun, rcStep]
+      have hl : s.live - 1 = n := by omega
+      apply rc_atomic_pairs_exact rest _ n' fr'
+      · simp only [tmpOf_push, hc, hl]; omega
+      · simp only [tmpOf_push, hf, hc, hl, Bool.false_or, Nat.add_sub_cancel]
+        cases n <;> simp
+      · simp only [tmpOf_push, hc, Nat.add_sub_cancel]
+        exact h
+
 end RotoV.Conc.Share
